@@ -54,6 +54,10 @@ def match_delim(s, i):
                 if s[i] == "\\":
                     i += 1
                 i += 1
+        elif c == "'" and i + 2 < n and s[i + 2] == "'":
+            i += 2          # simple char literal such as '(' or ')'
+        elif c == "'" and i + 3 < n and s[i + 1] == "\\" and s[i + 3] == "'":
+            i += 3          # escaped char literal
         elif c in OPEN:
             stack.append(OPEN[c])
         elif c in ")]}":
